@@ -10,6 +10,7 @@ from ..core import Ctx, construct_key, norm
 from ..load import AnalysisError, Resolver, Scope, dotted, own_nodes, parent
 from ..paths import find_path, must_pass, no_suspension, reach, render
 from ..sym import call_name, enum_paths, find_calls, subst, sym_env
+from ..model import carries_exception
 
 FILE = 'aiuti/asyncio.py'
 
@@ -248,8 +249,8 @@ def c04(ctx: Ctx) -> None:
               witness=render(g, w), construct=construct_key(r.process.qualname, 'no missing-key sweep'))
     w = find_path(g, [g.entry], [g.exit], avoid=[s for s, _ in sweeps],
                   edge_ok=lambda e: _not_ise(e) and not empty_test_false(e))
-    esc = [e for n in g.nodes for e in g.succ[n.id] if e.dst is g.raise_exit and _not_ise(e) and e.classes
-           and not set(e.classes) <= {'CancelledError', 'BaseException', 'GeneratorExit'}]
+    esc = [e for n in g.nodes for e in g.succ[n.id] if e.dst is g.raise_exit and _not_ise(e)
+           and carries_exception(set(e.classes or ()) - {'InvalidStateError'})]
     escw = None
     for e in esc:
         # an Exception-class escape after the futures were collected
@@ -261,7 +262,7 @@ def c04(ctx: Ctx) -> None:
               w is None and escw is None, 'pending -> swept on all normal and exc:Exception paths',
               'a path through the batch task skips both sweeps' if w is not None else 'an Exception escapes the batch task before the futures are answered',
               witness=render(g, w or escw), construct=construct_key(r.process.qualname, 'unanswered path'))
-    if any(e.classes and set(e.classes) & {'CancelledError', 'BaseException'} for n in g.nodes for e in g.succ[n.id] if e.dst is g.raise_exit):
+    if any(e.classes and set(e.classes) & {'CancelledError', 'BaseException', 'NonException'} for n in g.nodes for e in g.succ[n.id] if e.dst is g.raise_exit):
         ctx.note('BaseException/CancelledError can leave the batch task without a sweep: this is loop shutdown, callers are cancelled with it')
     # B6
     pops = [n for n in body if n.kind == 'call' and isinstance(n.ast.func, ast.Attribute) and n.ast.func.attr == 'pop'
